@@ -59,6 +59,12 @@ and `Ref.eval`/`Ref.runProgram` themselves:
                                   `prepareCall`, `removeScope`s, `goto 0`): guard passes ⇒ the rest of the
                                   activation is the ordinary application of the same closure; guard fails ⇒
                                   the ordinary call behind the jump.
+* `compile_correct_on_F3lazy`, `lazy_semantics_on_F3lazy` — F3-lazy: F2/F2c with lazy parameters (`#p`) and
+                                  `force`: lazy argument object ↔ thunk (`Sim.LzOk`), `Force` (compile at force
+                                  time, helper on the captured stack, restore, memo) ↔ `Ref.force`
+                                  (`Sim.force_sim`); C16's `LazySemantics` restricted to the fragment.
+* `compile_correct_on_F3`       — the same fragments with `apply` and `map` (callee: closure object or Go builtin;
+                                  re-entrant calls from the builtin's frame: `Sim.aclaim_succ`, `Sim.hclaims`).
 
 `compile_correct_partial` (below) says what is proved of the semantic statement and names
 the unproved remainder (`CompileCorrectOutsideProved`).
@@ -72,6 +78,7 @@ import ZygoVerif.Proofs.SimFcTop
 import ZygoVerif.Proofs.SimF2Top
 import ZygoVerif.Proofs.SimF2BrkTop
 import ZygoVerif.Proofs.SimF2TailTop
+import ZygoVerif.Props.C16
 namespace ZygoVerif.C02
 open ZygoVerif.Core ZygoVerif.VM
 
@@ -1176,13 +1183,14 @@ theorem tail_call_simulates {k : Nat} {self h : String} {args : List Expr} (hh :
     (hc : (compile isFn c (.call (.sym h) args)).run gs = .ok r) (hfn : FnameOk self c)
     {ps : List String} {rest : Option String} (hkn : KnownOk c gs ps rest) (hps : ∀ p ∈ ps ++ rest.toList, okParam p = true)
     {m₁ : Nat → Nat} {s₁ : St} {rs₁ : Ref.St} {env vid : Nat} {D : List (Option Val)} {m : Nat → Nat} {s : St} {rs : Ref.St}
-    {cenv : Nat} {pre post : List Instr}
-    (hact : InAct m₁ s₁ rs₁ env vid D c.scopes m s rs) (hnargs : (fnOf s₁ vid).nargs = ps.length)
-    (hva : (fnOf s₁ vid).varargs = rest.isSome)
+    {cenv f₀ : Nat} {pre post : List Instr}
+    (hact : InAct m₁ s₁ rs₁ env vid D f₀ c.scopes m s rs) (hnargs : (fnOf s₁ vid).nargs = ps.length)
+    (hva : (fnOf s₁ vid).varargs = rest.isSome) (hpa : (fnOf s₁ vid).params = ps ++ rest.toList)
     (hrel : RelF m s rs cenv) (hseg : Seg s pre r.1.1 post) :
-    SimT r.1.1 s₁ env D m s rs cenv (Ref.eval (k + 2) (.call (.sym h) args) cenv rs) := by
-  obtain ⟨_, _, _, hA, hU, _, _, _, _, _, _, hV, _⟩ := fclaims (k + 1)
-  exact simT_selfcall hV hA hU hh hhead hfa hself isFn c gs r hc hfn hkn hps hact hnargs hva hrel hseg
+    SimT r.1.1 s₁ env D f₀ m s rs cenv (Ref.eval (k + 2) (.call (.sym h) args) cenv rs) := by
+  obtain ⟨_, _, _, hA, hU, _, _, _, _, _, _, hV, _, _, _, _, _, _, _, _, _, hlow⟩ := fclaims (k + 1)
+  exact simT_selfcall hV hA hU (fclaimH hlow hA) hh hhead hfa hself isFn c gs r hc hfn
+    hkn hps hact hnargs hva hpa hrel hseg
 
 /-- **`CompileCorrect` for F2c**: program texts of top-level statements whose loops may `break`/`continue`
 (`Fx [] ""`, so every program of Fx) and top-level `defn`s whose bodies (`FzList true`) call the function
@@ -1216,7 +1224,7 @@ theorem compile_correct_on_F2c : CompileCorrectOn (fun p => FyList p = true) := 
     | cont l rs' => rw [hres] at h; exact h.elim
 
 macro "fy_mem" d:ident : tactic =>
-  `(tactic| simp [$d:ident, FyList, Fy, FzList, Fz, FzArms, FxList, Fx, FxArms, lblOk, FtList, FfList, Ff, FaList, FfArms, FfBinds,
+  `(tactic| simp [$d:ident, FyList, Fy, FzList, Fz, Fs, FzArms, FxList, Fx, FxArms, lblOk, FtList, FfList, Ff, FaList, FfArms, FfBinds,
       okRest, okParam, okName, okBinder, okSym, okHead, foBuiltins, hoNames])
 
 /-- `(defn loop [i acc] (cond (== i 0) acc (loop (- i 1) (+ acc i)))) (trace (loop 3 0))`: a loop by a self tail
@@ -1336,17 +1344,304 @@ example : ∃ fuel' t, obsOfRef (Ref.runProgram 30 demoTailRebind Ref.initSt).1 
   | brk l rs' => rw [hres] at h; simp [refClass] at h
   | cont l rs' => rw [hres] at h; simp [refClass] at h
 
+/-! ## F3 (lazy parameters): `#p` formals and `force` -/
+
+/-- value and number of trace entries of a reference run -/
+def refVT (r : Ref.R Val) : Option (Val × Nat) :=
+  match r with
+  | .ok v rs => some (v, rs.trace.length)
+  | _ => none
+
+theorem truthy_bool (b : Bool) : truthy (.bool b) = b := rfl
+
+macro "ref_eval" d:ident : tactic =>
+  `(tactic| simp [$d:ident, Ref.evalBegin, Ref.eval, Ref.evalArgs, Ref.applyFn, Ref.bindParams, Ref.newFrame, Ref.evalCond, Ref.force,
+    Ref.define, Ref.setVar, Ref.lookup, Ref.lookupIn, Ref.initSt, Ref.assocSet, Ref.globalNames, coreBuiltins,
+    refVT, List.lookup, prim, isFunction, allInts, intOfLit, Ref.isLazyParam, rebindOk, tyOf, isCmp, compareVals,
+    cmpResult, truthy_bool])
+
+/-- `(defn f [#x y] (cond (> y 0) (force #x) 0)) (f (trace 5) 1) (f (trace 7) 0)`: the operand at the lazy
+position is evaluated only when forced — one trace entry, not two -/
+def demoLazy : List Expr :=
+  [.defn "f" ["#x", "y"] none [.cond [(.call (.sym ">") [.sym "y", .int 0], .call (.sym "force") [.sym "#x"])] (.int 0)],
+   .call (.sym "f") [.call (.sym "trace") [.int 5], .int 1],
+   .call (.sym "f") [.call (.sym "trace") [.int 7], .int 0]]
+
+/-- `(defn g [#x] (+ (force #x) (force #x))) (g (trace 3))`: forced twice, evaluated once (the memo) -/
+def demoLazyMemo : List Expr :=
+  [.defn "g" ["#x"] none [.call (.sym "+") [.call (.sym "force") [.sym "#x"], .call (.sym "force") [.sym "#x"]]],
+   .call (.sym "g") [.call (.sym "trace") [.int 3]]]
+
+/-- `(def a 1) (defn h [#x] (def a 10) (force #x)) (h (+ a 1))`: forced in the callee, evaluated in the caller's
+environment — 2, not 11 -/
+def demoLazyEnv : List Expr :=
+  [.def_ "a" (.int 1),
+   .defn "h" ["#x"] none [.def_ "a" (.int 10), .call (.sym "force") [.sym "#x"]],
+   .call (.sym "h") [.call (.sym "+") [.sym "a", .int 1]]]
+
+/-- `(defn lp [#x n] (cond (== n 0) (force #x) (lp (trace n) (- n 1)))) (lp 0 2)`: a lazy operand of a self
+tail call (`PushLazyArgInstr` among the inline operands) captures the scopes of the activation the jump then
+drops; forced in the last activation it still sees `n = 1` -/
+def demoLazyTail : List Expr :=
+  [.defn "lp" ["#x", "n"] none [.cond [(.call (.sym "==") [.sym "n", .int 0], .call (.sym "force") [.sym "#x"])]
+      (.call (.sym "lp") [.call (.sym "trace") [.sym "n"], .call (.sym "-") [.sym "n", .int 1]])],
+   .call (.sym "lp") [.int 0, .int 2]]
+
+theorem demoLazy_in : FtList demoLazy = true := by ft_mem2 demoLazy
+theorem demoLazyMemo_in : FtList demoLazyMemo = true := by ft_mem2 demoLazyMemo
+theorem demoLazyEnv_in : FtList demoLazyEnv = true := by ft_mem2 demoLazyEnv
+theorem demoLazyTail_in : FyList demoLazyTail = true := by fy_mem demoLazyTail
+
+set_option maxRecDepth 8000 in
+theorem demoLazy_ref :
+    refVT (Ref.evalBegin 20 demoLazy 0 { Ref.initSt with trace := [] }) = some (.int 0#64, 1) := by
+  ref_eval demoLazy
+set_option maxRecDepth 8000 in
+theorem demoLazyMemo_ref :
+    refVT (Ref.evalBegin 20 demoLazyMemo 0 { Ref.initSt with trace := [] }) = some (.int 6#64, 1) := by
+  ref_eval demoLazyMemo
+set_option maxRecDepth 8000 in
+theorem demoLazyEnv_ref :
+    refVT (Ref.evalBegin 20 demoLazyEnv 0 { Ref.initSt with trace := [] }) = some (.int 2#64, 0) := by
+  ref_eval demoLazyEnv
+set_option maxRecDepth 8000 in
+theorem demoLazyTail_ref :
+    refVT (Ref.evalBegin 40 demoLazyTail 0 { Ref.initSt with trace := [] }) = some (.int 1#64, 1) := by
+  ref_eval demoLazyTail
+
+/-- **`CompileCorrect` for F3-lazy**: the programs of F2 and F2c, whose `fn`/`defn` may declare lazy parameters
+(`#p`: the operand at that position is not evaluated at the call — `PrepareCallExprArgs` or, in a self tail
+call, `PushLazyArgInstr` makes a lazy argument object holding the expression, the scope stack and the function
+of the call site; the reference evaluator a thunk holding the expression and the frame) and may call `force`
+(on a lazy argument: the expression is compiled then, run as a helper function on the captured stack with the
+live stack set aside, the control state restored, the value memoised in the same slot of both tables; on any
+other value: the value). Lazy values may be passed on, stored, returned, forced later or never, forced from
+inside another force. `Sim.RelF.lz` relates the two tables (`Sim.LzOk`: same expression, the captured stack is
+the static chain of the thunk's frame, memos related); `Sim.force_sim`/`Sim.fclaimG` is the simulation of
+`force`, by induction on the reference fuel (the thunk's expression is evaluated with less fuel than the call). -/
+theorem compile_correct_on_F3lazy : CompileCorrectOn (fun p => FtList p = true ∨ FyList p = true) :=
+  fun p hp => hp.elim (compile_correct_on_F2 p) (compile_correct_on_F2c p)
+
+/-- an instance of `compile_correct_on_F3lazy` from a value and a trace length of the reference run -/
+theorem lazy_instance (fuel : Nat) (p : List Expr) (hp : FtList p = true ∨ FyList p = true) (hwf : Ref.wfList {} p = true)
+    (v : Val) (k : Nat) (h : refVT (Ref.evalBegin fuel p 0 { Ref.initSt with trace := [] }) = some (v, k)) :
+    ∃ fuel' val t, t.length = k ∧ obsOfRef (Ref.runProgram fuel p Ref.initSt).1 = some (.ok val t)
+      ∧ obsOfVM (VM.runText fuel' p VM.initSt).1 = some (.ok val t) := by
+  cases hres : Ref.evalBegin fuel p 0 { Ref.initSt with trace := [] } with
+  | ok v' rs' =>
+    have ho : obsOfRef (Ref.runProgram fuel p Ref.initSt).1 = some (.ok (pr rs'.heap v') rs'.trace) := by
+      unfold Ref.runProgram; simp only [hres]; rfl
+    obtain ⟨f, hf⟩ := compile_correct_on_F3lazy p hp hwf fuel _ ho
+    rw [hres] at h
+    simp only [refVT, Option.some.injEq, Prod.mk.injEq] at h
+    exact ⟨f, _, _, h.2, ho, hf⟩
+  | err rs' => rw [hres] at h; simp [refVT] at h
+  | timeout => rw [hres] at h; simp [refVT] at h
+  | brk l rs' => rw [hres] at h; simp [refVT] at h
+  | cont l rs' => rw [hres] at h; simp [refVT] at h
+
+/-- the four programs above, on the machine: the same value, the same trace (of the stated length) -/
+example : ∃ fuel' val t, t.length = 1 ∧ obsOfRef (Ref.runProgram 20 demoLazy Ref.initSt).1 = some (.ok val t)
+    ∧ obsOfVM (VM.runText fuel' demoLazy VM.initSt).1 = some (.ok val t) :=
+  lazy_instance 20 demoLazy (Or.inl demoLazy_in) (by decide) _ _ demoLazy_ref
+example : ∃ fuel' val t, t.length = 1 ∧ obsOfRef (Ref.runProgram 20 demoLazyMemo Ref.initSt).1 = some (.ok val t)
+    ∧ obsOfVM (VM.runText fuel' demoLazyMemo VM.initSt).1 = some (.ok val t) :=
+  lazy_instance 20 demoLazyMemo (Or.inl demoLazyMemo_in) (by decide) _ _ demoLazyMemo_ref
+example : ∃ fuel' val t, t.length = 0 ∧ obsOfRef (Ref.runProgram 20 demoLazyEnv Ref.initSt).1 = some (.ok val t)
+    ∧ obsOfVM (VM.runText fuel' demoLazyEnv VM.initSt).1 = some (.ok val t) :=
+  lazy_instance 20 demoLazyEnv (Or.inl demoLazyEnv_in) (by decide) _ _ demoLazyEnv_ref
+example : ∃ fuel' val t, t.length = 1 ∧ obsOfRef (Ref.runProgram 40 demoLazyTail Ref.initSt).1 = some (.ok val t)
+    ∧ obsOfVM (VM.runText fuel' demoLazyTail VM.initSt).1 = some (.ok val t) :=
+  lazy_instance 40 demoLazyTail (Or.inr demoLazyTail_in) (by decide) _ _ demoLazyTail_ref
+
+/-! ## F3 (`apply`, `map`): re-entrant calls from a Go builtin -/
+
+macro "ref_eval2" d:ident : tactic =>
+  `(tactic| simp [$d:ident, Ref.evalBegin, Ref.eval, Ref.evalArgs, Ref.evalList, Ref.applyFn, Ref.bindParams, Ref.newFrame, Ref.evalCond, Ref.force,
+    Ref.applyValues, Ref.mapArr, Ref.mapList, List.foldl, DataHeap.alloc, DataHeap.get, listToArray, mkList,
+    Ref.define, Ref.setVar, Ref.lookup, Ref.lookupIn, Ref.initSt, Ref.assocSet, Ref.globalNames, coreBuiltins,
+    refVT, List.lookup, prim, isFunction, allInts, intOfLit, Ref.isLazyParam, rebindOk, tyOf, isCmp, compareVals,
+    cmpResult, truthy_bool])
+
+/-- `(defn sq [x] (trace (* x x))) (len (map sq [1 2 3]))`: `map` over an array calls the closure once per element,
+in order, and stores the results in a new array -/
+def demoMapArr : List Expr :=
+  [.defn "sq" ["x"] none [.call (.sym "trace") [.call (.sym "*") [.sym "x", .sym "x"]]],
+   .call (.sym "len") [.call (.sym "map") [.sym "sq", .arr [.int 1, .int 2, .int 3]]]]
+
+/-- `(defn inc [x] (+ x 1)) (first (rest (map inc (list 1 2))))`: `map` over a list -/
+def demoMapList : List Expr :=
+  [.defn "inc" ["x"] none [.call (.sym "+") [.sym "x", .int 1]],
+   .call (.sym "first") [.call (.sym "rest") [.call (.sym "map") [.sym "inc", .call (.sym "list") [.int 1, .int 2]]]]]
+
+/-- `(defn add [a b] (+ a b)) (apply add [1 2])` -/
+def demoApply : List Expr :=
+  [.defn "add" ["a", "b"] none [.call (.sym "+") [.sym "a", .sym "b"]],
+   .call (.sym "apply") [.sym "add", .arr [.int 1, .int 2]]]
+
+/-- `(defn lz [#x] (+ (force #x) (force #x))) (apply lz [(trace 7)])`: `apply` hands over values; a lazy position
+receives an already forced lazy argument object (`NewValueLazyArg`) -/
+def demoApplyLazy : List Expr :=
+  [.defn "lz" ["#x"] none [.call (.sym "+") [.call (.sym "force") [.sym "#x"], .call (.sym "force") [.sym "#x"]]],
+   .call (.sym "apply") [.sym "lz", .arr [.call (.sym "trace") [.int 7]]]]
+
+/-- `(+ (apply + [1 2]) (apply apply [+ [1 2]]))`: Go builtins — also `apply` itself — as callees of `apply` -/
+def demoApplyBuiltin : List Expr :=
+  [.call (.sym "+") [.call (.sym "apply") [.sym "+", .arr [.int 1, .int 2]],
+     .call (.sym "apply") [.sym "apply", .arr [.sym "+", .arr [.int 1, .int 2]]]]]
+
+theorem demoMapArr_in : FtList demoMapArr = true := by ft_mem2 demoMapArr
+theorem demoMapList_in : FtList demoMapList = true := by ft_mem2 demoMapList
+theorem demoApply_in : FtList demoApply = true := by ft_mem2 demoApply
+theorem demoApplyLazy_in : FtList demoApplyLazy = true := by ft_mem2 demoApplyLazy
+theorem demoApplyBuiltin_in : FtList demoApplyBuiltin = true := by ft_mem2 demoApplyBuiltin
+
+set_option maxRecDepth 8000 in
+theorem demoMapArr_ref :
+    refVT (Ref.evalBegin 20 demoMapArr 0 { Ref.initSt with trace := [] }) = some (.int 3#64, 3) := by
+  ref_eval2 demoMapArr
+set_option maxRecDepth 8000 in
+theorem demoMapList_ref :
+    refVT (Ref.evalBegin 20 demoMapList 0 { Ref.initSt with trace := [] }) = some (.int 3#64, 0) := by
+  ref_eval2 demoMapList
+set_option maxRecDepth 8000 in
+theorem demoApply_ref :
+    refVT (Ref.evalBegin 20 demoApply 0 { Ref.initSt with trace := [] }) = some (.int 3#64, 0) := by
+  ref_eval2 demoApply
+set_option maxRecDepth 8000 in
+theorem demoApplyLazy_ref :
+    refVT (Ref.evalBegin 20 demoApplyLazy 0 { Ref.initSt with trace := [] }) = some (.int 14#64, 1) := by
+  ref_eval2 demoApplyLazy
+set_option maxRecDepth 8000 in
+theorem demoApplyBuiltin_ref :
+    refVT (Ref.evalBegin 20 demoApplyBuiltin 0 { Ref.initSt with trace := [] }) = some (.int 6#64, 0) := by
+  ref_eval2 demoApplyBuiltin
+
+/-- **`CompileCorrect` for F3**: the programs of F2 and F2c — lazy parameters and `force` included — that also
+call `apply` and `map` (or pass them, or any other builtin of the fragment, as values: to variables, to user
+functions, to `apply`/`map` themselves). `(apply f coll)`: `f` a closure object or a Go builtin (first-order,
+`force`, `apply`, `map`), `coll` an array or a list; `(map f coll)`: `f` called once per element, first to last,
+on the element as the array/list holds it at that moment, results in a new array resp. list. The Go builtin
+calls back into the machine (`Apply`: the arguments pushed — at a lazy position the index of an already forced
+lazy argument object made for the value —, `CallFunction`, a nested `Run` whose return address names the
+builtin's pseudo-function; an error restores the captured control state): `Sim.aclaim_succ` against
+`Ref.applyValues`, with `FClaimU` at lower fuel for the closure (the relation is stated for the function that
+called the builtin: `St.withCur`), `Sim.marr_succ`/`Sim.mlist_succ` against `Ref.mapArr`/`Ref.mapList`,
+`Sim.hclaims`: every Go builtin of the fragment inside its frame, by induction on the reference fuel. -/
+theorem compile_correct_on_F3 : CompileCorrectOn (fun p => FtList p = true ∨ FyList p = true) :=
+  compile_correct_on_F3lazy
+
+/-- the five programs above, on the machine: the same value, the same trace (of the stated length) -/
+example : ∃ fuel' val t, t.length = 3 ∧ obsOfRef (Ref.runProgram 20 demoMapArr Ref.initSt).1 = some (.ok val t)
+    ∧ obsOfVM (VM.runText fuel' demoMapArr VM.initSt).1 = some (.ok val t) :=
+  lazy_instance 20 demoMapArr (Or.inl demoMapArr_in) (by decide) _ _ demoMapArr_ref
+example : ∃ fuel' val t, t.length = 0 ∧ obsOfRef (Ref.runProgram 20 demoMapList Ref.initSt).1 = some (.ok val t)
+    ∧ obsOfVM (VM.runText fuel' demoMapList VM.initSt).1 = some (.ok val t) :=
+  lazy_instance 20 demoMapList (Or.inl demoMapList_in) (by decide) _ _ demoMapList_ref
+example : ∃ fuel' val t, t.length = 0 ∧ obsOfRef (Ref.runProgram 20 demoApply Ref.initSt).1 = some (.ok val t)
+    ∧ obsOfVM (VM.runText fuel' demoApply VM.initSt).1 = some (.ok val t) :=
+  lazy_instance 20 demoApply (Or.inl demoApply_in) (by decide) _ _ demoApply_ref
+example : ∃ fuel' val t, t.length = 1 ∧ obsOfRef (Ref.runProgram 20 demoApplyLazy Ref.initSt).1 = some (.ok val t)
+    ∧ obsOfVM (VM.runText fuel' demoApplyLazy VM.initSt).1 = some (.ok val t) :=
+  lazy_instance 20 demoApplyLazy (Or.inl demoApplyLazy_in) (by decide) _ _ demoApplyLazy_ref
+example : ∃ fuel' val t, t.length = 0 ∧ obsOfRef (Ref.runProgram 20 demoApplyBuiltin Ref.initSt).1 = some (.ok val t)
+    ∧ obsOfVM (VM.runText fuel' demoApplyBuiltin VM.initSt).1 = some (.ok val t) :=
+  lazy_instance 20 demoApplyBuiltin (Or.inl demoApplyBuiltin_in) (by decide) _ _ demoApplyBuiltin_ref
+
+/-! ## Self tail calls and loops with exits in NESTED functions -/
+
+/-- `(defn outer [n] (defn lp [i acc] (cond (== i 0) acc (lp (- i 1) (+ acc i)))) (lp n 0)) (outer 3)`: the nested
+function loops by a self tail call -/
+def demoNestedTail : List Expr :=
+  [.defn "outer" ["n"] none
+     [.defn "lp" ["i", "acc"] none [.cond [(.call (.sym "==") [.sym "i", .int 0], .sym "acc")]
+        (.call (.sym "lp") [.call (.sym "-") [.sym "i", .int 1], .call (.sym "+") [.sym "acc", .sym "i"]])],
+      .call (.sym "lp") [.sym "n", .int 0]],
+   .call (.sym "outer") [.int 3]]
+
+/-- `(defn outer [xs] (defn firstpos [ys] (def r 0) (for [(def i 0) (< i (len ys)) (set i (+ i 1))]
+(cond (> (aget ys i) 0) (begin (set r (aget ys i)) (break)) nil)) r) (firstpos xs)) (outer [0 5 7])`: a loop with
+`break` in the body of a nested function -/
+def demoNestedBrk : List Expr :=
+  [.defn "outer" ["xs"] none
+     [.defn "firstpos" ["ys"] none
+        [.def_ "r" (.int 0),
+         .for_ none (.def_ "i" (.int 0)) (.call (.sym "<") [.sym "i", .call (.sym "len") [.sym "ys"]])
+           (.set_ "i" (.call (.sym "+") [.sym "i", .int 1]))
+           [.cond [(.call (.sym ">") [.call (.sym "aget") [.sym "ys", .sym "i"], .int 0],
+                    .begin_ [.set_ "r" (.call (.sym "aget") [.sym "ys", .sym "i"]), .break_ none])] .nilLit],
+         .sym "r"],
+      .call (.sym "firstpos") [.sym "xs"]],
+   .call (.sym "outer") [.arr [.int 0, .int 5, .int 7]]]
+
+theorem demoNestedTail_in : FyList demoNestedTail = true := by fy_mem demoNestedTail
+example : FyList demoNestedBrk = true := by fy_mem demoNestedBrk
+example : FtList demoNestedTail = false := by fy_mem demoNestedTail
+
+set_option maxRecDepth 16000 in
+theorem demoNestedTail_ref :
+    refVT (Ref.evalBegin 40 demoNestedTail 0 { Ref.initSt with trace := [] }) = some (.int 6#64, 0) := by
+  ref_eval2 demoNestedTail
+
+/-- **Nested functions with self tail calls and loops with exits**: in the bodies of F2c (`Sim.FzList`) a statement
+before the last one (`Sim.Fs`) or the form in tail position (`Sim.Fz`) may be a `defn` whose body is again in
+`Sim.FzList` — to any depth. Such a `defn` makes a closure object whose body is simulated in tail position like
+every other (`Sim.simF_defnZ`, `Sim.GoodFn.clo`); the generator's knowledge of the function it compiles
+(`Sim.KnownOk`, `knownOk_bodyCtx`) and the loop-table facts travel with the object. `compile_correct_on_F2c` — and
+with it `compile_correct_on_F3` — covers these programs; this is the instance for the fragment as it is now. -/
+theorem compile_correct_on_F2c_nested : CompileCorrectOn (fun p => FyList p = true) := compile_correct_on_F2c
+
+example : ∃ fuel' val t, t.length = 0 ∧ obsOfRef (Ref.runProgram 40 demoNestedTail Ref.initSt).1 = some (.ok val t)
+    ∧ obsOfVM (VM.runText fuel' demoNestedTail VM.initSt).1 = some (.ok val t) :=
+  lazy_instance 40 demoNestedTail (Or.inr demoNestedTail_in) (by decide) _ _ demoNestedTail_ref
+
+/-- **C16's `LazySemantics` on the fragment**: the statement of `Props/C16.lean` (`C16.LazySemantics`, in that
+file's vocabulary) restricted to the programs of F3-lazy. -/
+theorem lazy_semantics_on_F3lazy (p : List Expr) (hp : FtList p = true ∨ FyList p = true) (hwf : Ref.wfList {} p = true)
+    (fuel : Nat) (o : C16.Obs) (ho : C16.obsOfRef (Ref.runProgram fuel p Ref.initSt).1 = some o) :
+    ∃ fuel', C16.obsOfVM (VM.runText fuel' p VM.initSt).1 = some o := by
+  have key : ∀ o2 : Obs, obsOfRef (Ref.runProgram fuel p Ref.initSt).1 = some o2 →
+      ∃ fuel', obsOfVM (VM.runText fuel' p VM.initSt).1 = some o2 := compile_correct_on_F3lazy p hp hwf fuel
+  have conv : ∀ (out : VM.Outcome) (v : String) (t : List String), obsOfVM out = some (.ok v t) → C16.obsOfVM out = some (.ok v t) := by
+    intro out v t h
+    unfold obsOfVM at h
+    split at h
+    · injection h with h; injection h with h1 h2; subst h1; subst h2; rfl
+    · cases h
+    · cases h
+  have conve : ∀ (out : VM.Outcome) (t : List String), obsOfVM out = some (.err t) → C16.obsOfVM out = some (.err t) := by
+    intro out t h
+    unfold obsOfVM at h
+    split at h
+    · cases h
+    · injection h with h; injection h with h1; subst h1; rfl
+    · cases h
+  cases hr : (Ref.runProgram fuel p Ref.initSt).1 with
+  | ok v t =>
+    rw [hr] at ho
+    injection ho with ho; subst ho
+    obtain ⟨f, hf⟩ := key (.ok v t) (by rw [hr]; rfl)
+    exact ⟨f, conv _ v t hf⟩
+  | err t =>
+    rw [hr] at ho
+    injection ho with ho; subst ho
+    obtain ⟨f, hf⟩ := key (.err t) (by rw [hr]; rfl)
+    exact ⟨f, conve _ t hf⟩
+  | timeout => rw [hr] at ho; cases ho
+
 /-- the programs covered by a theorem: every top-level form in Fv, or every top-level form in Fc,
 or every top-level form in F2, or every top-level form in Fx (F2 with `break`/`continue` in top-level loops),
 or every top-level form in F2c (F2 forms and top-level `defn`s with self tail calls) -/
 def InProvedFragment (p : List Expr) : Prop :=
   FvList p = true ∨ FcList p = true ∨ FtList p = true ∨ FxTop p = true ∨ FyList p = true
 
-/-- **The part of `CompileCorrect` that is NOT proved**: programs that are in none of Fv, Fc, F2, Fx, F2c —
+/-- **The part of `CompileCorrect` that is NOT proved**: programs that are in none of Fv, Fc, F2, Fx, F2c
+(F2 and F2c include lazy parameters, `force`, `apply` and `map`) —
 i.e. using a `fn`/`defn` inside
-an operand of a call (compiled at run time), with lazy parameters, a self call in
-a directly compiled non-tail position or in a nested `defn`, `map`/`apply`/`force`/`substitute`, computed call heads,
-`break`/`continue` inside the body of a nested function, an empty `newScope`, or (together with calls or
+an operand of a call (compiled at run time), a self call in
+a directly compiled non-tail position, a self tail call or `break`/`continue` in a nested function that is not a
+`defn` statement of a function body (an anonymous `fn`, a `defn` inside a loop body or an operand), `substitute`,
+computed call heads, an empty `newScope`, or (together with calls or
 array literals) a binder that re-uses a builtin name. Held by the 3-way `eval` correspondence on
 every run, not by a theorem. -/
 def CompileCorrectOutsideProved : Prop := CompileCorrectOn (fun p => ¬ InProvedFragment p)
@@ -1373,15 +1668,23 @@ def CompileCorrectOutsideProved : Prop := CompileCorrectOn (fun p => ¬ InProved
      (`Sim.Fz`: under `begin`/`cond`/`let`/`letseq`/`newScope`) and whose loops `break`/`continue`: the
      self-tail-call sequence with its guard, both paths (`Sim.SimT`, `Sim.RetOut`, `Sim.simT_selfcall`);
      loops with exits inside function bodies (`Sim.simF_stmt`) — `compile_correct_on_F2c`;
+   * F3-lazy — in F2 and F2c, `fn`/`defn` may declare lazy parameters (`#p`) and every program may call `force`:
+     operands at lazy positions are not evaluated at the call (ordinary call and self tail call), `force`
+     evaluates them once, in the environment of the call site, whenever and wherever it is called
+     (`Sim.force_sim`) — `compile_correct_on_F3lazy`, and in C16's vocabulary `lazy_semantics_on_F3lazy`;
+   * F3 — in the same fragments, `apply` and `map` on closure objects and on Go builtins (first-order, `force`,
+     `apply`, `map`), over arrays and lists; builtins as values — `compile_correct_on_F3`;
+   * nested functions — a `defn` that is a statement (or the last form) of a function body of F2c may itself have a
+     body of F2c: self tail calls and loops with `break`/`continue` in nested functions, to any depth
+     (`Sim.Fs`, `Sim.simF_defnZ`) — `compile_correct_on_F2c_nested`;
    * for the effect-free sub-fragment F0c with explicit fuel on both sides — `compile_correct_F0c`;
 2. the full `CompileCorrect` follows from its restriction to the remaining programs
    (`CompileCorrectOutsideProved`, the precise unproved remainder);
 3. the layout half for `begin`/`cond`/`and`/`or` as before (and `gen_for_layout` for loops).
 
 MISSING (held by the `eval` correspondence only): `CompileCorrectOutsideProved` — `break`/`continue`
-inside the bodies of nested functions (`fn`, `defn` not at top level), the rest of F2
-(`fn`/`defn` inside operands), self tail calls and `break`/`continue` in nested functions,
-F3 (`map`/`apply`, lazy parameters). -/
+and self tail calls inside anonymous functions (`fn`) and inside `defn`s that are not statements of a function body
+(in loop bodies, in operands), the rest of F2 (`fn`/`defn` inside operands), `substitute`. -/
 theorem compile_correct_partial :
     CompileCorrectOn InProvedFragment
     ∧ (CompileCorrectOutsideProved → CompileCorrect)
